@@ -263,6 +263,20 @@ func between(a, m, b ssa.Instruction) bool {
 	return instrBefore(a, m) && instrBefore(m, b)
 }
 
+// mustPass: b is unreachable from the entry of its function without executing a first (conditional-constant
+// exploration, so merged flags of inlined predicates are followed; strictly more precise than dominance and still
+// a must-property).
+func mustPass(a, b ssa.Instruction) bool {
+	if a == nil || b == nil || a.Parent() != b.Parent() {
+		return false
+	}
+	if instrBefore(a, b) {
+		return true
+	}
+	reach := an.Explore(a.Parent(), nil, nil, func(in ssa.Instruction) bool { return in == a })
+	return !reach.Reached(b)
+}
+
 func instrBefore(a, b ssa.Instruction) bool {
 	if a.Block() == b.Block() {
 		return instrIndex(a) < instrIndex(b)
